@@ -53,3 +53,35 @@ func (s *Store) VerifWalk(fn func(table string, item interface{})) {
 		}
 	}
 }
+
+// VerifSessionCheck is an exported view of a session_checks row.
+type VerifSessionCheck struct{ Node, Session, CheckID string }
+
+// VerifSessionChecks lists the session_checks table.
+func (s *Store) VerifSessionChecks() []VerifSessionCheck {
+	tx := s.db.ReadTxn()
+	defer tx.Abort()
+	iter, err := tx.Get(tableSessionChecks, indexID)
+	if err != nil {
+		panic(err)
+	}
+	var out []VerifSessionCheck
+	for raw := iter.Next(); raw != nil; raw = iter.Next() {
+		sc := raw.(*sessionCheck)
+		out = append(out, VerifSessionCheck{Node: sc.Node, Session: sc.Session, CheckID: string(sc.CheckID.ID)})
+	}
+	return out
+}
+
+// VerifMaxHint returns the highest index hinted to the tombstone GC so far (0 if none).
+func (t *TombstoneGC) VerifMaxHint() uint64 {
+	t.Lock()
+	defer t.Unlock()
+	var m uint64
+	for _, e := range t.expires {
+		if e.maxIndex > m {
+			m = e.maxIndex
+		}
+	}
+	return m
+}
